@@ -533,7 +533,10 @@ fn thread_op(sh: ShPtr, tid: usize, aid: u32, line: &str) -> String {
         for (id, slot) in hs {
           s.case.handles.insert(id, slot);
         }
-        let cleared = !t[0].starts_with("alloc_aligned");
+        // `alloc_aligned_bytes::<T>(n)` does not zero, except for a zero-sized `T` without alignment (or n = 0),
+        // which the crate routes to `alloc_bytes`
+        let cleared = !t[0].starts_with("alloc_aligned")
+          || (t.len() >= 5 && t[3] == "0" && (t[2] == "1" || t[4] == "0"));
         if cleared && body.starts_with("r=ok") {
           let f = |k: &str| field(&body, k).and_then(|v| v.parse::<usize>().ok()).unwrap_or(0);
           let (off, cap) = (f("off="), f("cap="));
